@@ -264,6 +264,80 @@ func (p *c17) build(seed uint64, tier string) []SendScenario {
 			}
 		}
 	}
+	if DialSeam {
+		// go-mail's own dialers: the silent peer meets net.Dialer + STARTTLS, the tls.Dialer of
+		// implicit TLS (whose handshake only the dial context bounds), and the fallback port
+		for _, mode := range []string{"mandatory", "implicit", "implicit-fallback"} {
+			for _, auth := range []string{"", "LOGIN", "SCRAM-SHA-256"} {
+				for _, op := range []string{"dial", "dialandsend"} {
+					base := func(label string) SendScenario {
+						idx++
+						to := 1000 + r.Intn(29000)
+						c := ClientCfg{TLSPolicy: mode, AuthType: auth, User: "user-c17", Pass: "pass-c17-Zq8", TimeoutMs: to, DefaultDialer: true}
+						s := SendScenario{Label: "defaultdialer:" + mode + ":" + label, Client: c, Op: op, Sched: sim.Derive(seed, 17, uint64(idx)),
+							Server: refsmtpd.Config{Caps: []string{"8BITMIME", "STARTTLS", authCaps(allMechs...)}, TLS: refsmtpd.TLSCfg{Cert: "valid"},
+								Auth: refsmtpd.AuthCfg{User: "user-c17", Pass: "pass-c17-Zq8", Salt: []byte("saltsalt"), Iter: 16}}}
+						if strings.HasPrefix(mode, "implicit") {
+							s.Client.TLSPolicy = "implicit"
+							s.Server.ImplicitTLS = true
+							s.Server.Caps = []string{"8BITMIME", authCaps(allMechs...)}
+						}
+						if mode == "implicit-fallback" {
+							s.Client.SSLPort, s.DialFail = true, 1
+						}
+						if r.Chance(1, 3) {
+							s.CtxMs = to + 1000 + r.Intn(120000)
+						}
+						if op == "dialandsend" {
+							s.Batches = [][]MsgSpec{{SimpleMsg("m1", "a@dest.example", "b@dest.example")}}
+						}
+						return s
+					}
+					type pos struct {
+						label, verb string
+						nth         int
+					}
+					ps := []pos{{"GREET", "GREET", 1}, {"EHLO", "EHLO", 1}}
+					if mode == "mandatory" {
+						ps = append(ps, pos{"STARTTLS", "STARTTLS", 1}, pos{"EHLO-after-TLS", "EHLO", 2})
+					}
+					if auth != "" {
+						ps = append(ps, pos{"AUTH", "AUTH", 1}, pos{"AUTHRESP-1", "AUTHRESP", 1})
+					}
+					if op == "dialandsend" {
+						ps = append(ps, pos{"NOOP-1", "NOOP", 1}, pos{"MAIL-1", "MAIL", 1}, pos{"DATA-1", "DATA", 1}, pos{"EOD-1", "EOD", 1}, pos{"QUIT", "QUIT", 1})
+					}
+					for _, ps1 := range ps {
+						for _, how := range []string{"stall", "mid"} {
+							s := base(ps1.label + "/" + how)
+							a := refsmtpd.Action{}
+							if how == "stall" {
+								a.Kind = "stall"
+							} else {
+								a.StallWhere = how
+							}
+							s.Server.Rules = []refsmtpd.Rule{{Verb: ps1.verb, Nth: ps1.nth, Action: a}}
+							out = append(out, s)
+						}
+					}
+					s := base("TLS-handshake/stall")
+					s.Server.TLS.Cert = "stall"
+					out = append(out, s)
+					if mode != "mandatory" {
+						// a plain SMTP peer where TLS was expected: its greeting is no handshake
+						// record; a peer that says nothing at all
+						s := base("TLS-handshake/peer-silent-plain")
+						s.Server.ImplicitTLS = false
+						s.Server.Rules = []refsmtpd.Rule{{Verb: "GREET", Nth: 1, Action: refsmtpd.Action{Kind: "stall"}}}
+						out = append(out, s)
+					}
+					s = base("dial-function-blocks")
+					s.DialBlocks = true
+					out = append(out, s)
+				}
+			}
+		}
+	}
 	p.cache[key] = out
 	return out
 }
@@ -431,14 +505,14 @@ func (p *c17) Shrink(scAny any) []any {
 
 func (p *c17) Info() PropInfo {
 	return PropInfo{
-		Rule: "enumeration: {DialWithContext, DialAndSend, Send (two calls), Reset} x TLS mode x auth class x silent point (each server message of the dialogue at {server stops, nothing arrives, half arrives}; byte offsets inside the TLS handshake flights; server stops reading before a command / inside the content with small send windows; server stops reading right after its 354 x content size {100 B .. 20 kB, around the client's 4 KiB write buffer} x send window {64 B .. 64 KiB}); a third of the calls carry a caller context whose own deadline lies later than the timeout; a quarter of the Clients use WithoutNoop; a dial function that blocks until its context is done (DialWithContext, DialAndSend); DialAndSend of an empty batch with a silent QUIT; a second DialWithContext while the server of the earlier, still open session is silent; timeouts drawn from 1..30 s; a case is non-trivial when the stall took effect while or before a judged call ran; distinct = distinct (op, TLS, auth, silent point)",
+		Rule: "enumeration: go-mail's own dialers as well (no WithDialContextFunc: net.Dialer + STARTTLS, tls.Dialer for implicit TLS whose handshake only the dial context bounds, WithSSLPort(true) with a failing first dial, a plain or silent peer where TLS was expected); {DialWithContext, DialAndSend, Send (two calls), Reset} x TLS mode x auth class x silent point (each server message of the dialogue at {server stops, nothing arrives, half arrives}; byte offsets inside the TLS handshake flights; server stops reading before a command / inside the content with small send windows; server stops reading right after its 354 x content size {100 B .. 20 kB, around the client's 4 KiB write buffer} x send window {64 B .. 64 KiB}); a third of the calls carry a caller context whose own deadline lies later than the timeout; a quarter of the Clients use WithoutNoop; a dial function that blocks until its context is done (DialWithContext, DialAndSend); DialAndSend of an empty batch with a silent QUIT; a second DialWithContext while the server of the earlier, still open session is silent; timeouts drawn from 1..30 s; a case is non-trivial when the stall took effect while or before a judged call ran; distinct = distinct (op, TLS, auth, silent point)",
 		Assumptions: []string{"a peer that stops in the middle of a plain-text reply line may cost two timeouts instead of one: the standard library (bufio.ReadLine under net/textproto) returns the truncated line as a complete reply when the deadline expires, after which one more step starts with its own timeout",
 			"when the peer stops reading on a TLS connection, 5 s are added to the bound: crypto/tls bounds the close_notify write of Close by a fixed 5 s deadline, and C19 requires the Close",
 			"the bound is measured on the simulated clock from the instant the first suppressed byte was written (or the server stopped) to the return of the call; slack 1 ms of virtual time for kernel park ticks",
 			"slow-drip peers are outside the statement (it speaks of a silent server) and are not judged"},
 		Real:            []string{"github.com/wneessen/go-mail client and smtp packages", "net/textproto", "crypto/tls on both ends", "context deadlines, net.Conn deadlines (virtual clock)"},
-		Stubbed:         []string{"TCP (sim.Pipe with send window)", "SMTP server (refsmtpd)", "clock (synctest bubble)"},
-		NotCovered:      []string{"implicit TLS through the default dialer (net.Dialer/tls.Dialer over real sockets)"},
+		Stubbed:         []string{"TCP (sim.Pipe with send window)", "SMTP server (refsmtpd)", "clock (synctest bubble)", "the socket under go-mail's default dialers (type names net.Dialer / tls.Dialer rewritten to simhook.NetDialer / simhook.TLSDialer in the scratch copy; TLSDialer.DialContext follows crypto/tls.(*Dialer).DialContext step by step, 25 lines)"},
+		NotCovered:      []string{"unix sockets", "a resolver or connect(2) that hangs inside the operating system (the simulated dial returns at once or blocks until its context is done)"},
 		Exhaustive:      func(string) bool { return true },
 		HangIsViolation: true,
 		QuickBudget:     90 * time.Second, ThoroughBudget: 20 * time.Minute,
